@@ -2308,6 +2308,12 @@ class Interp:
                 return [(cfg, ListV([Const(x) for x in r], "tuple"))]
             return [(cfg, Const(r))]
         if isinstance(base, Const) and isinstance(base.v, (str, bytes)):
+            if meth in ("startswith", "endswith") and args and isinstance(args[0], ListV) and args[0].kind == "tuple" \
+                    and all(isinstance(x, Const) for x in args[0].items) and all(isinstance(a, Const) for a in args[1:]) and not kwargs:
+                try:
+                    return [(cfg, Const(getattr(base.v, meth)(tuple(x.v for x in args[0].items), *[a.v for a in args[1:]])))]
+                except Exception:  # noqa
+                    return None
             if all(isinstance(a, Const) for a in args) and not kwargs:
                 try:
                     r = getattr(base.v, meth)(*[a.v for a in args])
